@@ -268,7 +268,7 @@ static cache_network CN;
 
 static void ttx_state_init(void)
 {
-  memset(&VBI, 0, sizeof VBI);
+  /* VBI is a static object: zero initialised (a memset of the whole decoder costs minutes of symex) */
   VBI.cn = &CN; VBI.event_mask = VBI_EVENT_TTX_PAGE | VBI_EVENT_NETWORK | VBI_EVENT_NETWORK_ID | VBI_EVENT_LOCAL_TIME | VBI_EVENT_PROG_ID;
   VBI.vt.max_level = VBI_WST_LEVEL_1p5;
 }
@@ -372,7 +372,12 @@ V_HARNESS(h_btt)
   ttx_state_init();
   in_bytes(raw, 40); packet = in_u8() & 31;
   FOR_CONCRETE(k, 0, 31, packet, parse_btt(&VBI, raw, k));
-  for (i = 0; i < 15; i++) if (CN.btt_link[i].pgno) V_ASSERT(CN.btt_link[i].pgno >= 0x100 && CN.btt_link[i].pgno <= 0x8FF, "btt_link_range");
+  for (i = 0; i < N_ELEMENTS(CN.btt_link); i++) if (CN.btt_link[i].pgno) V_ASSERT(CN.btt_link[i].pgno >= 0x100 && CN.btt_link[i].pgno <= 0x8FF, "btt_link_range");
+  /* frame: besides the link table, have_top and the page statistics nothing of the network is written (initial state all zero) */
+  { static const struct ttx_magazine zero_mag; static const struct ttx_page_link zero_link;
+    V_ASSERT(CN.have_top == 0 || CN.have_top == 1, "btt_have_top_boolean");
+    V_ASSERT(bytes_eq(&CN._magazines[0], &zero_mag, sizeof zero_mag), "btt_magazine_defaults_untouched");
+    V_ASSERT(bytes_eq(&CN.initial_page, &zero_link, sizeof zero_link), "btt_initial_page_untouched"); }
   V_END();
 }
 V_HARNESS(h_mpt)
@@ -427,6 +432,46 @@ V_HARNESS(h_drcs)
   CPD.lop_packets = in_u32() & 0x3FFFFFF;
   in_bytes(&CPD.data.drcs.lop.raw[1][0], 24 * 40);
   for (i = 0; i < 48; i++) { uint8_t m = in_u8() & 15; CPD.data.drcs.mode[i] = (i < DRCS_FREE_FROM) ? DRCS_HEAD_MODE : m; }
-  convert_drcs(&CPD, CPD.data.drcs.lop.raw[1]);
+  { uint8_t m0[48]; memcpy(m0, CPD.data.drcs.mode, 48);
+    convert_drcs(&CPD, CPD.data.drcs.lop.raw[1]);
+    V_ASSERT(bytes_eq(m0, CPD.data.drcs.mode, 48), "drcs_mode_table_untouched"); }
+  V_END();
+}
+
+/* =============== page header (packet X/0): field decoding and containment, C03(3) =============== */
+/* vt.current = NULL (no page in progress to store), cache lookup misses: the header's own effect is isolated.
+   Reference: EN 300 706 9.3.1: page units/tens, S1..S4 with C4 C5 C6, C7..C14 - eight Hamming 8/4 bytes. */
+V_HARNESS(h_ttx_header)
+{
+  uint8_t buf[42]; struct raw_page *rv = &VBI.vt.raw_page[MAGN & 7]; unsigned pmag = (MAGN & 7); vbi_bool r; unsigned i;
+  int n[8]; int err = 0, hi_err, page, sub, flags; const int mag8 = (MAGN & 7) ? (MAGN & 7) : 8;
+  V_INIT();
+  ttx_state_init();
+  in_bytes(buf + 2, 40);
+  buf[0] = ref_ham8(pmag & 15); buf[1] = ref_ham8(pmag >> 4);
+  rv->page->function = PAGE_FUNCTION_LOP; rv->page->pgno = mag8 * 256 + 0x99; rv->page->subno = 0x3F7F;
+  for (i = 0; i < 8; i++) { n[i] = ref_unham8(buf[2 + i]); if (n[i] < 0) err = 1; }
+  hi_err = (n[0] < 0 || n[1] < 0);
+  r = vbi_decode_teletext(&VBI, buf);
+  if (hi_err) {                                   /* page number uncorrectable: pages in progress abandoned, nothing stored */
+    V_ASSERT(!r && put_n == 0 && ev_n == 0, "hdr_pageno_error_stores_nothing");
+    V_REACH("pageno_err");
+  } else {
+    page = n[0] | (n[1] << 4);
+    V_ASSERT(rv->page->pgno == mag8 * 256 + page, "hdr_opens_transmitted_page_number");
+    V_ASSERT(put_n == 0, "hdr_nothing_stored_without_page_in_progress");
+    if (err || page == 0xFF) {                    /* subcode/control bits uncorrectable (or time filling header): page not assembled */
+      V_ASSERT(!r && rv->page->function == PAGE_FUNCTION_DISCARD, "hdr_subcode_or_control_error_discards");
+      V_REACH("sub_err");
+    } else {
+      sub = n[2] | (n[3] << 4) | (n[4] << 8) | (n[5] << 12); flags = n[6] | (n[7] << 4);
+      V_ASSERT(r, "hdr_clean_accepted");
+      V_ASSERT(rv->page->subno == (sub & 0x3F7F), "hdr_opens_transmitted_subcode");
+      V_ASSERT(rv->page->national == (int) (ref_rev8((unsigned) flags) & 7), "hdr_national_bits");
+      V_ASSERT((rv->page->flags & 0xFF7F80 & ~C4_ERASE_PAGE) == ((((unsigned) flags << 16) + (unsigned) sub) & 0xFF7F80 & ~C4_ERASE_PAGE), "hdr_control_bits");
+      V_ASSERT(VBI.vt.current == rv, "hdr_becomes_current");
+      V_REACH("clean");
+    }
+  }
   V_END();
 }
